@@ -45,9 +45,12 @@ def ads_T():
 
 
 def material(rich=False):
-    base = st.builds(lambda k, d, mm: {"name": f"m-{k}", "density": d, "molar_mass": mm},
-                     st.integers(0, 9), st.floats(0.05, 25.0), st.floats(10.0, 5000.0))
-    return base
+    def make(k, d, mm, lit):
+        if lit == "int":  # python integer literals for the physical properties (a quarter of the materials)
+            d, mm = int(max(1, round(d))), int(round(mm))
+        return {"name": f"m-{k}", "density": d, "molar_mass": mm}
+    return st.builds(make, st.integers(0, 9), st.floats(0.05, 25.0), st.floats(10.0, 5000.0),
+                     st.sampled_from(["float"] * 3 + ["int"]))
 
 
 # ---- isotherm data --------------------------------------------------------------------------------------------------------
@@ -99,7 +102,7 @@ _meta_values = st.one_of(st.text(alphabet="abcXYZ é-_", min_size=1, max_size=6)
 
 @st.composite
 def point_desc(draw, allow_fraction=True, min_points=1, max_points=12, desorption=True, extras=True, meta=True,
-               handicap=0.0, grid=None, strict_loading=False, force_extras=False):
+               handicap=0.0, grid=None, strict_loading=False, force_extras=False, row_labels=True):
     """A full point-isotherm descriptor for pbt.case.build_point."""
     u = draw(units(allow_fraction))
     at = draw(ads_T())
@@ -114,10 +117,17 @@ def point_desc(draw, allow_fraction=True, min_points=1, max_points=12, desorptio
     mode = draw(st.sampled_from(["guess", "explicit", "explicit"]))
     d["branch"] = "guess" if mode == "guess" else data["branch_true"]
     d["branch_true"] = data["branch_true"]
+    if row_labels:
+        # row labels of the table the isotherm is built from (kept by the library, never content): a quarter of the cases
+        lab = draw(st.sampled_from([None] * 6 + ["shift", "perm", "gaps", "text"]))
+        if lab:
+            d["labels"] = [lab, draw(st.integers(0, 1000))]
     if extras and (force_extras or draw(st.booleans())):
         d["extra"] = {"enthalpy": draw(st.lists(st.floats(-50, 50).map(lambda x: round(x, 4)), min_size=n, max_size=n))}
         if draw(st.booleans()):
-            d["extra"]["note"] = draw(st.lists(st.sampled_from(["a", "b", "c d"]), min_size=n, max_size=n))
+            # a text column, under a name that sorts after or before the numeric one
+            tname = draw(st.sampled_from(["note", "note", "comment", "Batch"]))
+            d["extra"][tname] = draw(st.lists(st.sampled_from(["a", "b", "c d"]), min_size=n, max_size=n))
     if meta:
         d["meta"] = draw(st.dictionaries(st.sampled_from(["user", "machine", "iso_type", "comment", "k1"]), _meta_values,
                                          max_size=3))
